@@ -5,7 +5,11 @@
     key) and quantify over EVERY file-system state (any function from paths to Absent/File/Dir),
     every key, every resolver configuration, both settings of the [wat] feature and every behaviour
     of the three library oracles (WAT assembly, WIT directory encoding, WIT file encoding).
-    [key_wf] only says that the final path component (last name part / version text) is not empty. *)
+    [key_wf] only says that the final path component (last name part / version text) is not empty.
+
+    TWO models: [resolve_one] is fs.rs AS FOUND (sections 1-7 and the refutation below); [resolve_one_fixed] is
+    fs.rs as it is NOW, after the repair d297b59 — the last part of this file proves the property for it at full
+    strength ([fs_resolve_table]), and the correspondence of every run is against it. *)
 From WacV Require Import Str FsResolve FsSpec FsResolveProofs.
 
 Section C18.
@@ -187,3 +191,127 @@ Example c18_nonvacuous :
   resolve_one o_wat o_dir o_file true fs2 (cfg0 true) k_u = ErrUnknown /\
   resolve_one o_wat o_dir o_file true fs2 (cfg0 false) k_u = Skipped.
 Proof. vm_compute. repeat split; discriminate. Qed.
+
+(** * The repaired code (commit d297b59): the property at FULL strength.
+
+    /repo's fs.rs now follows [resolve_one_fixed] (FsResolve.v): the correspondence of every run compares the real
+    resolver with THIS model on every generated layout, and any difference is a violation.  For it the decision
+    table holds for every well-formed key with no exception, and the clauses of the property sharpen accordingly
+    (a directory at B".wat"/B".wasm" is not a package: it neither shadows the ".wasm" file nor counts as present).
+    The as-found model [resolve_one] and its theorems above are kept so that a return of the defect is recognised
+    ([fs_resolve_table_refuted]'s witness is a regression case of the check). *)
+From WacV Require Import FsResolveFixed.
+
+Section C18Fixed.
+  Variable wat_parse wit_dir_encode wit_file_encode : content -> option content.
+  Notation resolve_one := (resolve_one wat_parse wit_dir_encode wit_file_encode).
+  Notation resolve_one_fixed := (resolve_one_fixed wat_parse wit_dir_encode wit_file_encode).
+  Notation spec := (spec wat_parse wit_dir_encode wit_file_encode).
+
+  (** 1. The decision table, as the property states it. *)
+  Theorem fs_resolve_table : forall wat fs cfg k,
+    key_wf k -> resolve_one_fixed wat fs cfg k = spec wat fs cfg k.
+  Proof. exact (table_fixed wat_parse wit_dir_encode wit_file_encode). Qed.
+
+  (** The repair changes nothing outside the recorded deviation. *)
+  Theorem repair_is_conservative : forall wat fs cfg k,
+    key_wf k -> suffixed_dir_chosen wat fs cfg k = false ->
+    resolve_one_fixed wat fs cfg k = resolve_one wat fs cfg k.
+  Proof. exact (fixed_eq_found wat_parse wit_dir_encode wit_file_encode). Qed.
+
+  (** 2. Extension appended, never replaced; documented locations only. *)
+  Theorem fixed_ext_appended_not_replaced : forall wat fs cfg k v src p b,
+    k_version k = Some v -> v <> [] ->
+    resolve_one_fixed wat fs cfg k = Loaded src p b ->
+    last p [] = v \/ last p [] = v ++ ch_dot :: s_wat \/ last p [] = v ++ ch_dot :: s_wasm.
+  Proof. exact (fixed_ext_appended wat_parse wit_dir_encode wit_file_encode). Qed.
+
+  Theorem fixed_loaded_from_documented_location : forall wat fs cfg k src p b,
+    key_wf k -> applicable_override cfg k = None ->
+    resolve_one_fixed wat fs cfg k = Loaded src p b ->
+    p = base cfg k \/ p = suffixed cfg k s_wat \/ p = suffixed cfg k s_wasm.
+  Proof. exact (fixed_loaded_location wat_parse wit_dir_encode wit_file_encode). Qed.
+
+  (** 3. Text preferred when enabled; the binary otherwise — also when B".wat" is a directory. *)
+  Theorem fixed_wat_preferred_when_enabled : forall fs cfg k c,
+    key_wf k -> applicable_override cfg k = None ->
+    is_dir fs (base cfg k) = false -> fs (suffixed cfg k s_wat) = File c ->
+    resolve_one_fixed true fs cfg k = assembled wat_parse (suffixed cfg k s_wat) c.
+  Proof. exact (fixed_wat_preferred wat_parse wit_dir_encode wit_file_encode). Qed.
+
+  Theorem fixed_wasm_used_otherwise : forall wat fs cfg k c,
+    key_wf k -> applicable_override cfg k = None ->
+    is_dir fs (base cfg k) = false -> (wat = false \/ is_file fs (suffixed cfg k s_wat) = false) ->
+    fs (suffixed cfg k s_wasm) = File c ->
+    resolve_one_fixed wat fs cfg k = Loaded SrcRaw (suffixed cfg k s_wasm) c.
+  Proof. exact (fixed_wasm_otherwise wat_parse wit_dir_encode wit_file_encode). Qed.
+
+  (** 4. A directory at B is a WIT package. *)
+  Theorem fixed_directory_is_wit_package : forall wat fs cfg k c,
+    applicable_override cfg k = None -> fs (base cfg k) = Dir c ->
+    resolve_one_fixed wat fs cfg k = wit_package wit_dir_encode (base cfg k) c.
+  Proof. exact (fixed_dir_is_package wat_parse wit_dir_encode wit_file_encode). Qed.
+
+  (** 5. Explicit locations. *)
+  Theorem fixed_override_unversioned_only : forall wat fs cfg k v,
+    k_version k = Some v ->
+    resolve_one_fixed wat fs cfg k = resolve_one_fixed wat fs (without_overrides cfg) k.
+  Proof. exact (fixed_override_versioned_ignored wat_parse wit_dir_encode wit_file_encode). Qed.
+
+  Theorem fixed_override_used_when_unversioned : forall wat fs cfg k p c,
+    applicable_override cfg k = Some p -> fs p = File c ->
+    resolve_one_fixed wat fs cfg k = read_named_file wat_parse wit_file_encode wat p c.
+  Proof. exact (fixed_override_used wat_parse wit_dir_encode wit_file_encode). Qed.
+
+  Theorem fixed_override_must_exist : forall wat fs cfg k p,
+    applicable_override cfg k = Some p -> (forall c, fs p <> File c) ->
+    resolve_one_fixed wat fs cfg k = ErrResolution OverrideMissing.
+  Proof. exact (fixed_override_missing wat_parse wit_dir_encode wit_file_encode). Qed.
+
+  (** 6. Bytes. *)
+  Theorem fixed_bytes_are_file_bytes : forall wat fs cfg k src p b,
+    resolve_one_fixed wat fs cfg k = Loaded src p b ->
+    bytes_come_from wat_parse wit_dir_encode wit_file_encode fs src p b.
+  Proof. exact (fixed_bytes_origin wat_parse wit_dir_encode wit_file_encode). Qed.
+
+  (** 7. Skipped / unknown exactly when nothing is there, by mode. *)
+  Theorem fixed_missing_mode : forall wat fs cfg k,
+    key_wf k -> nothing_there wat fs cfg k ->
+    resolve_one_fixed wat fs cfg k = if error_on_unknown cfg then ErrUnknown else Skipped.
+  Proof. exact (fixed_missing wat_parse wit_dir_encode wit_file_encode). Qed.
+
+  Theorem fixed_not_found_exactly_when_missing : forall wat fs cfg k,
+    key_wf k ->
+    (not_found (resolve_one_fixed wat fs cfg k) = true <-> nothing_there wat fs cfg k).
+  Proof. exact (fixed_not_found_iff wat_parse wit_dir_encode wit_file_encode). Qed.
+End C18Fixed.
+
+Print Assumptions fs_resolve_table.
+Print Assumptions repair_is_conservative.
+Print Assumptions fixed_ext_appended_not_replaced.
+Print Assumptions fixed_loaded_from_documented_location.
+Print Assumptions fixed_wat_preferred_when_enabled.
+Print Assumptions fixed_wasm_used_otherwise.
+Print Assumptions fixed_directory_is_wit_package.
+Print Assumptions fixed_override_unversioned_only.
+Print Assumptions fixed_override_used_when_unversioned.
+Print Assumptions fixed_override_must_exist.
+Print Assumptions fixed_bytes_are_file_bytes.
+Print Assumptions fixed_missing_mode.
+Print Assumptions fixed_not_found_exactly_when_missing.
+
+(** On the witness of [fs_resolve_table_refuted] the repaired code answers as the table says, and the non-vacuity
+    cases of [c18_nonvacuous] are answered identically. *)
+Example c18_fixed_nonvacuous :
+  resolve_one_fixed o_wat o_dir o_file true
+    (fs_of_list [([s_deps; s_foo; s_bar_wat], Dir 5); ([s_deps; s_foo; s_bar_wasm], File 7)])
+    (cfg0 true) k_u = Loaded SrcRaw [s_deps; s_foo; s_bar_wasm] 7 /\
+  resolve_one_fixed o_wat o_dir o_file true
+    (fs_of_list [([s_deps; s_foo; s_bar_wasm], Dir 5)]) (cfg0 true) k_u = ErrUnknown /\
+  resolve_one_fixed o_wat o_dir o_file true fs1 (cfg0 true) k_v = Loaded SrcWat [s_deps; s_foo; s_bar; s_123_wat] 1002 /\
+  resolve_one_fixed o_wat o_dir o_file false fs1 (cfg0 true) k_v = Loaded SrcRaw [s_deps; s_foo; s_bar; s_123_wasm] 3 /\
+  resolve_one_fixed o_wat o_dir o_file true fs1 (cfg0 true) k_u = Loaded SrcWitDir [s_deps; s_foo; s_bar] 2001 /\
+  resolve_one_fixed o_wat o_dir o_file true fs1 (cfg_ov [s_foo; s_bar_wasm]) k_u = Loaded SrcRaw [s_foo; s_bar_wasm] 9 /\
+  resolve_one_fixed o_wat o_dir o_file true fs1 (cfg_ov [s_foo; s_bar_wat]) k_u = ErrResolution OverrideMissing /\
+  resolve_one_fixed o_wat o_dir o_file true fs2 (cfg0 false) k_u = Skipped.
+Proof. vm_compute. repeat split. Qed.
